@@ -82,6 +82,10 @@ impl Worker {
             if self.status != ChunkCommand::Resume {
                 return;
             }
+            // verification-harness hook: counted from before the queue is looked at until the
+            // popped transaction is completely processed
+            #[cfg(feature = "verif-hooks")]
+            let _verif_guard = self.service.verif_inflight.enter();
             // cheap query to check queue is not empty
             if self.tasks.read().await.is_empty() {
                 return;
